@@ -255,10 +255,27 @@ impl Recipe {
         if r.chance(1, 2) {
             x.images = pick_keys(r, &IMAGE_KEYS, 2, true);
         }
+        overlap_names(&mut x, r);
         x
     }
     pub fn describe(&self) -> String {
         format!("{:?}", self)
+    }
+}
+
+/// the two stores are separate name spaces: give the data store entries that are named like
+/// image entries (different bytes; a data file may itself be a valid PNG)
+pub fn overlap_names(rc: &mut Recipe, r: &mut Rng) {
+    let names: Vec<String> = rc.images.iter().map(|(k, _)| k.clone()).collect();
+    for k in names {
+        if !r.chance(1, 2) || rc.data.iter().any(|(d, _)| *d == k || d.starts_with(&format!("{}/", k))) {
+            continue;
+        }
+        let mut b: Vec<u8> = if r.chance(1, 2) { PNG.to_vec() } else { vec![b'd', b'a', b't', b'a'] };
+        b.push(r.below(256) as u8);
+        b.extend_from_slice(b" data entry named like an image: ");
+        b.extend_from_slice(k.as_bytes());
+        rc.data.push((k, b));
     }
 }
 
